@@ -226,6 +226,24 @@ func (this *DefaultInputBitStream) readFromInputStream(count int) (int, error) {
 
 	this.read += (int64(this.position << 3))
 	size, err := this.is.Read(this.buffer[0:count])
+
+	// Short read: keep reading until the buffer holds a whole number of
+	// 64-bit words (partial words are only valid at the end of the stream)
+	for err == nil && size > 0 && size&7 != 0 && size < count {
+		var n int
+		n, err = this.is.Read(this.buffer[size:count])
+
+		if n <= 0 {
+			if err == nil {
+				err = io.ErrNoProgress
+			}
+
+			break
+		}
+
+		size += n
+	}
+
 	this.position = 0
 
 	if size <= 0 {
